@@ -50,6 +50,9 @@ CHECKS = {
  "C14": ("model_checking", "stateless depth-first schedule exploration of the real index build under a controlled scheduler at tantivy's layout-determining seams (vendored tantivy with gates), plus session histories mem / disk-first / disk-reopen / disk-rebuild",
          "Every assignment of documents to indexing workers (symmetry-reduced), every order of equally sized segments, merge timing and merge input order is enumerated on the real Db::in_memory()/Db::open() over reduced data sets of shipped constants that tie for the ambiguous probes; every session of every execution must answer the probe set like the reference execution (and own-word probes must find their constant); on-disk layouts are read back from the real index; the full shipped data runs under corner schedules.",
          "Layout depends on scheduling only through the four gated seams (argued in DESIGN 2.6, cross-checked by reading real on-disk layouts back); vendored tantivy = registry 0.19.2 + vendor/tantivy-gates.patch (checked in setup); hook H1 (asset directory seam) supplies the reduced data sets.", "3 C14"),
+ "C15": ("fault_enumeration", "exhaustive crash-point (and torn-write) enumeration of the real start-up under an LD_PRELOAD fault injector, crossed with prior directory states and followed by crash-free starts",
+         "The real Db::open() is killed before every one of its file-system mutations (every point; thorough also torn writes and second crashes) from each prior directory state; after each crash: meta.json current => index complete (checked with tantivy independently), and two crash-free starts must answer the probe set exactly like a fresh in-memory database. Every listed prior state (absent, other version, other data, missing/truncated/garbage metadata incl. every proper prefix, missing index directory) is also started crash-free.",
+         "Process-crash model (no power-loss reordering); tantivy's raw-syscall renames are bracketed by interposed calls; the crashed directory is the replay artefact.", "3 C15"),
  "C16": ("exploration", E1 + ": every shipped constant x every permutation of its words",
          "All 878 constants decoded independently; every typeable permutation of their words is looked up with descriptions on.",
          "One in-memory Db per worker.", "3 C16"),
@@ -89,7 +92,7 @@ def main():
     na = [{"property_id": p, "reason": NOT_APPLICABLE.get(p, "check not built yet in this round (planned, see DESIGN.md §3)")} for p in ALL if p not in CHECKS]
     m = {
         "version": 1,
-        "setup_cmd": "mkdir -p /verif/scratch && /verif/tools/check_vendor.sh && cd /verif/harness && CARGO_NET_OFFLINE=true cargo build --offline --release && CARGO_NET_OFFLINE=true cargo build --offline --profile verif-debug && cd /verif/harness-sched && CARGO_NET_OFFLINE=true cargo build --offline --release && cd /repo && CARGO_NET_OFFLINE=true cargo build --offline --release --bin any --target-dir /verif/harness/target/any",
+        "setup_cmd": "mkdir -p /verif/scratch && /verif/tools/check_vendor.sh && gcc -O1 -fPIC -shared -o /verif/shim/crash.so /verif/shim/crash.c -ldl && cd /verif/harness && CARGO_NET_OFFLINE=true cargo build --offline --release && CARGO_NET_OFFLINE=true cargo build --offline --profile verif-debug && cd /verif/harness-sched && CARGO_NET_OFFLINE=true cargo build --offline --release && cd /repo && CARGO_NET_OFFLINE=true cargo build --offline --release --bin any --target-dir /verif/harness/target/any",
         "hooks": {
             "guard": "anything_verif",
             "enable": "RUSTFLAGS=\"--cfg anything_verif\" via /verif/harness/.cargo/config.toml (harness builds only)",
